@@ -430,7 +430,12 @@ func (ps *PipeSim) killAll(tag int) {
 
 func init() {
 	Register(&PropertyDef{ID: "C02", Strata: []string{"txn", "nontxn", "txn-enum", "nontxn-enum", "txn-select", "txn-txnheavy", "txn-txnheavy-innersel"}, Run: func(r *Run, s string) *Violation { return runCrashProp(r, "C02", s) }, StepCap: 30000})
-	Register(&PropertyDef{ID: "C07", Strata: []string{"txn-idle", "nontxn-idle", "txn", "nontxn", "txn-enum", "nontxn-enum"}, Run: func(r *Run, s string) *Violation { return runCrashProp(r, "C07", s) }, StepCap: 30000})
+	Register(&PropertyDef{ID: "C07", Strata: []string{"txn-idle", "nontxn-idle", "txn", "nontxn", "txn-enum", "nontxn-enum", "runid-switch"}, Run: func(r *Run, s string) *Violation {
+		if s == "runid-switch" {
+			return runC07Switch(r, s)
+		}
+		return runCrashProp(r, "C07", s)
+	}, StepCap: 200000})
 	Register(&PropertyDef{ID: "C09", Strata: []string{"txn-txnheavy", "txn-txnheavy-enum", "txn-select", "txn-txnheavy-innersel", "txn-txnheavy-innersel-enum"}, Run: func(r *Run, s string) *Violation { return runCrashProp(r, "C09", s) }, StepCap: 30000})
 }
 
